@@ -1,4 +1,151 @@
+import Mav.Proofs.Node
 import Mav.Spec.Events
+/-
+  C10 — per-channel event stream. Property theorems only.
+  Model: the transition system Mav/Model/Node.lean (any number of channels, any interleaving of readers, writers,
+  Channel.run, providers, the node loop, the application's Close), after `fix: deliver the events of a channel as a
+  prefix when the node is closing`. Every theorem quantifies over every REACHABLE state.
+-/
 namespace Mav.C10
-theorem placeholder : True := trivial
+open Mav Nd
+
+
+/-- the channel's ideal event sequence at this point: open, one event per non-fatal read result in arrival order, and
+    the close event once Channel.run has decided on it -/
+def ideal (x : ChanSt) : List Ev := .opn :: evsOf x.consumed ++ x.closeEv
+
+/-- **C10 (never a hole, a duplicate, a reordering or an invented event).** In every reachable state, what the application
+    has received from a channel is a prefix of the channel's ideal sequence — whatever the interleaving, whether or not
+    Close has been called, whether or not the application keeps receiving. -/
+theorem delivered_prefix_of_ideal (inputs : Cid → List RdRes) (s : St) (hr : Reach (init inputs) s) (c : Cid) : (s.chans c).delivered <+: ideal (s.chans c) := by
+  obtain ⟨hA, hB⟩ := reach_evinv inputs s hr c
+  have hw := (reach_wantinv inputs s hr c).w1
+  have h1 : (s.chans c).delivered <+: (s.chans c).produced := by
+    rcases hA with h | ⟨_, _, ev, h⟩
+    · exact ⟨_, h⟩
+    · exact ⟨_, h⟩
+  have h2 : (s.chans c).produced <+: (s.chans c).want := by
+    rcases hB with h | ⟨_, h⟩
+    · exact ⟨_, h⟩
+    · exact h
+  unfold ideal
+  rw [← hw]
+  exact h1.trans h2
+
+/-- **C10 (nothing lost while the node is not being closed).** Before `Close` is called, every event the channel has decided
+    to emit has been received, is blocked in `pushEvent` waiting for the application, or is the one about to be pushed:
+    delivered ++ in flight ++ pending = ideal. Nothing is dropped, whatever traffic flows on other channels. -/
+theorem nothing_lost_before_close (inputs : Cid → List RdRes) (s : St) (hr : Reach (init inputs) s) (c : Cid) (ht : s.terminate = false) :
+    (s.chans c).delivered ++ inflight (s.chans c) ++ pend (s.chans c) = ideal (s.chans c) := by
+  obtain ⟨hA, hB⟩ := reach_evinv inputs s hr c
+  have hw := (reach_wantinv inputs s hr c).w1
+  rcases hA with hA | ⟨h, _⟩
+  · rcases hB with hB | ⟨h, _⟩
+    · unfold ideal; rw [← hw, ← hB, ← hA]
+    · rw [ht] at h; cases h
+  · rw [ht] at h; cases h
+
+/-- **C10 (open first).** The first event of a channel, if any, is its open event. -/
+theorem open_first (inputs : Cid → List RdRes) (s : St) (hr : Reach (init inputs) s) (c : Cid) (ev : Ev) (rest : List Ev) (h : (s.chans c).delivered = ev :: rest) : ev = .opn := by
+  have hp := delivered_prefix_of_ideal inputs s hr c
+  rw [h] at hp
+  obtain ⟨t, ht⟩ := hp
+  simp [ideal] at ht
+  exact ht.1
+
+/-- **C10 (close last, at most once).** Nothing is ever received after a channel's close event. -/
+theorem nothing_after_close (inputs : Cid → List RdRes) (s : St) (hr : Reach (init inputs) s) (c : Cid) (e : Option Nat) (pre post : List Ev)
+    (h : (s.chans c).delivered = pre ++ [.close e] ++ post) : post = [] := by
+  have hp := delivered_prefix_of_ideal inputs s hr c
+  have hw := reach_wantinv inputs s hr c
+  rw [h] at hp
+  obtain ⟨t, ht⟩ := hp
+  -- the ideal sequence contains a close event only as its last element
+  have hnc : ∀ ev ∈ (Ev.opn :: evsOf (s.chans c).consumed), ∀ e', ev ≠ .close e' := by
+    intro ev hev e'
+    simp at hev
+    rcases hev with rfl | hev
+    · simp
+    · simp [evsOf, List.mem_filterMap] at hev
+      obtain ⟨r, _, hr'⟩ := hev
+      cases r <;> simp [toEv] at hr' <;> subst hr' <;> simp
+  rcases hw.w3 with hce | ⟨e', hce⟩
+  · -- no close event in the ideal sequence at all
+    exfalso
+    simp only [ideal, hce, List.append_nil] at ht
+    have : Ev.close e ∈ (Ev.opn :: evsOf (s.chans c).consumed) := by
+      rw [← ht]; simp
+    exact hnc _ this e rfl
+  · simp only [ideal, hce] at ht
+    -- (pre ++ [close e] ++ post) ++ t = body ++ [close e'] with no close in body: close e is the last element
+    have hlen : ∀ (body : List Ev), (∀ ev ∈ body, ∀ e', ev ≠ .close e') →
+        ∀ pre post t : List Ev, pre ++ [Ev.close e] ++ post ++ t = body ++ [Ev.close e'] → post = [] := by
+      intro body
+      induction body with
+      | nil =>
+        intro _ pre post t h
+        cases pre with
+        | nil => simp at h; first | exact h.2.1 | exact h.2 | simp_all
+        | cons p ps => simp at h
+      | cons b bs ih =>
+        intro hb pre post t h
+        cases pre with
+        | nil =>
+          simp at h
+          exact absurd h.1.symm (hb b (by simp) e)
+        | cons p ps =>
+          simp only [List.cons_append, List.cons.injEq] at h
+          exact ih (fun ev hev => hb ev (by simp [hev])) ps post t h.2
+    exact hlen _ hnc pre post t ht
+
+/-- **C10 (attribution and global order).** The events the application has received from channel c, in the order of the
+    node's single event stream, are exactly c's delivered list: events are attributed to their channel and the per-channel
+    order is the order in the global stream. -/
+theorem log_projection (inputs : Cid → List RdRes) (s : St) (hr : Reach (init inputs) s) (c : Cid) : logOf s.log c = (s.chans c).delivered := reach_log inputs s hr c
+
+/-- **C10 (frames correspond to the input).** The read results behind the events are a prefix of what the transport
+    delivered, in order; each non-fatal result yields exactly one event. -/
+theorem consumed_prefix_of_input (inputs : Cid → List RdRes) (s : St) (hr : Reach (init inputs) s) (c : Cid) : (s.chans c).consumed <+: inputs c := by
+  have hw := reach_wantinv inputs s hr c
+  rcases hw.w5 with h | ⟨e, h⟩
+  · exact ⟨(s.chans c).inputs, by rw [← h]; exact hw.w4⟩
+  · refine ⟨[.fatal e] ++ (s.chans c).inputs, ?_⟩
+    rw [← List.append_assoc, ← h]; exact hw.w4
+
+/-- the executable judge used on real runs (Spec.evLegal, early mode) accepts every observation the model can produce:
+    a prefix of body ++ [close] -/
+theorem model_observation_is_legal (closeEvt : Ev) (body obs : List Ev) (h : obs <+: body ++ [closeEvt]) :
+    obs <+: body ∨ ∃ pre, obs = pre ++ [closeEvt] ∧ pre <+: body := by
+  obtain ⟨t, ht⟩ := h
+  by_cases hl : obs.length ≤ body.length
+  · left
+    have := List.prefix_of_prefix_length_le ⟨t, ht⟩ (List.prefix_append body [closeEvt]) hl
+    exact this
+  · right
+    have hlen := congrArg List.length ht
+    simp at hlen
+    have ht0 : t = [] := by
+      cases t with
+      | nil => rfl
+      | cons a b => simp at hlen; omega
+    subst ht0
+    simp at ht
+    exact ⟨body, ht, List.prefix_refl _⟩
+
+end Mav.C10
+
+namespace Mav.C10
+open Mav Nd
+/-- non-vacuity: the hypotheses are met by a state in which a channel was opened, its open event received and a frame read. -/
+example : ∃ s, Reach (init (fun _ => [.frame 7, .fatal 3])) s ∧ (s.chans 0).delivered = [.opn] ∧ s.terminate = false ∧
+    (s.chans 0).consumed = [.frame 7] := by
+  let i : Cid → List RdRes := fun _ => [.frame 7, .fatal 3]
+  have r0 : Reach (init i) (init i) := .refl
+  have r1 := Reach.step r0 (Step.newChan (init i) 0 rfl rfl rfl (by simp [init]))
+  have r2 := Reach.step r1 (Step.pBegin _ 0 .opn (by simp [upd, init]) (by simp [upd, init]) rfl)
+  have r3 := Reach.step r2 (Step.pDeliver _ 0 .opn (by simp [upd, init]) rfl)
+  have r4 := Reach.step r3 (Step.rResume _ 0 (by simp [upd, init]) (by simp [upd, init]))
+  have r5 := Reach.step r4 (Step.rReadOk _ 0 (.frame 7) [.fatal 3] (.frame 7) (by simp [upd, init]) (by simp [upd, init])
+    (by simp [upd, init, i]) rfl)
+  exact ⟨_, r5, by simp [upd, init], rfl, by simp [upd, init]⟩
 end Mav.C10
